@@ -6,12 +6,22 @@
                field) and gives no checksum verdict
       fsck     exit status of e2fsck -fn on the flipped image
       lib      1 iff the library read path of that object type returned an error
+      overlay  1 iff the byte/bit flipped in a block bitmap stands for a block of a BLOCK_UNINIT group's own metadata (else 0)
      }
    Obligation (property text): a covered byte changed and the stored checksum no longer the format's  =>  detected by both.
    The specification's coverage function and the reader's recomputation are two independent statements of the format; a
    disagreement between them (other than a 16-bit truncation collision) is reported as DISAGREE and makes the check broken,
    it is never a verdict about the code.                                                                              *)
 EXTENDS CsumCoverage, Json, IOUtils, TLC, Sequences
+(* Named deviations of the pinned tree (known findings while TRUE in the cfg; a line they explain is reported as DEVLINE):
+     DevUninitOverlayHidesFlip   the flipped bit of a block bitmap stands for a block the library marks in memory anyway, because
+                                 it is the bitmap / inode table of a BLOCK_UNINIT group that flex_bg packed into this group
+                                 (field overlay = 1): e2fsck compares and checksums the in-memory bitmap, sees no difference
+                                 and exits 0 although the on-disk bitmap fails its checksum (library and kernel refuse it)
+     DevJsbNrUsersClearsV2       a changed s_nr_users (bytes 64..67) of a checksummed journal superblock makes debugfs's journal
+                                 loader treat it as a V1 superblock with junk behind it: it wipes the V2 fields, checksum
+                                 feature included, instead of reporting the failed checksum (e2fsck does report it)        *)
+CONSTANTS DevUninitOverlayHidesFlip, DevJsbNrUsersClearsV2
 VARIABLE l
 Tr == ndJsonDeserialize(IOEnv.TRACE)
 Obligation(r) == Covered(r, r.off) /\ r.stale \in {1, 2}
@@ -20,8 +30,11 @@ Agree(r) == \/ r.stale = 2
             \/ Covered(r, r.off) = (r.stale = 1)
             \/ (Covered(r, r.off) /\ r.stale = 0 /\ Truncated(r))
             \/ (~Covered(r, r.off) /\ r.stale = 1 /\ r.off \in CsumField(r))     \* the stored checksum itself was changed
+DevCase(r) == \/ DevUninitOverlayHidesFlip /\ r.type = "bb" /\ r.overlay = 1 /\ r.fsck = 0 /\ r.lib = 1
+              \/ DevJsbNrUsersClearsV2 /\ r.type = "jsb" /\ r.off \in 64..67 /\ r.fsck # 0 /\ r.lib = 0
 TLine == /\ l <= Len(Tr)
-         /\ (IF Obligation(Tr[l]) /\ ~Detected(Tr[l]) THEN PrintT(<<"BADLINE", l>>) ELSE TRUE)
+         /\ (IF Obligation(Tr[l]) /\ ~Detected(Tr[l])
+             THEN (IF DevCase(Tr[l]) THEN PrintT(<<"DEVLINE", l>>) ELSE PrintT(<<"BADLINE", l>>)) ELSE TRUE)
          /\ (IF ~Agree(Tr[l]) THEN PrintT(<<"DISAGREE", l>>) ELSE TRUE)
          /\ l' = l + 1
 TraceSpec == l = 1 /\ [][TLine]_l
